@@ -38,6 +38,9 @@ type C06Case struct {
 	// "grouped" = key + aggregates with GROUP BY) with the same textual select list
 	Agg    string `json:"agg,omitempty"`
 	AggKey string `json:"agg_key,omitempty"`
+	// GoTypes: integer columns (of every table) handed over as native Go values, incl. int64 / uint64 beyond
+	// 2^53 (distinct values that float64 cannot tell apart must stay distinct rows)
+	GoTypes map[string]string `json:"go_types,omitempty"`
 }
 
 func init() {
@@ -57,6 +60,44 @@ func init() {
 		Gen: func(t *rapid.T) any {
 			c := genC06(t).(*C06Case)
 			c.Env = genEnvelope(t, "env")
+			if c.Mode != "distinct-star" && rapid.IntRange(0, 3).Draw(t, "gotypes") == 0 {
+				// the two leading columns, when they hold integers and no WHERE compares them with a constant
+				mentioned := map[string]bool{}
+				note := func(e *sq.E) {
+					if e != nil {
+						e.Walk(func(x *sq.E) {
+							if x.K == "col" {
+								mentioned[x.S] = true
+							}
+						})
+					}
+				}
+				note(c.Where)
+				for _, b := range c.Branches {
+					note(b.Where)
+				}
+				rows, _ := c.Doc["t"].([]any)
+				c.GoTypes = map[string]string{}
+				if len(rows) > 0 {
+					first, _ := rows[0].(map[string]any)
+					for _, name := range mapKeys(first) {
+						v := first[name]
+						if _, isNum := v.(float64); isNum && !mentioned[name] && name != c.SumCol && rapid.Bool().Draw(t, "gotypes."+name) {
+							typ := rapid.SampledFrom([]string{"bigint64", "biguint64", "int64", "int", "uint8"}).Draw(t, "gotypes."+name+".type")
+							c.GoTypes[name] = typ
+						}
+					}
+				}
+				for _, it := range c.Items {
+					if it.Expr.K != "col" {
+						it.Expr.Walk(func(x *sq.E) {
+							if x.K == "col" {
+								delete(c.GoTypes, x.S) // arithmetic on the column: keep float64
+							}
+						})
+					}
+				}
+			}
 			return c
 		},
 		New: func() any { return &C06Case{} },
@@ -97,7 +138,7 @@ func genC06(t *rapid.T) any {
 		for i := range names {
 			tb.Cols = append(tb.Cols, Col{Name: names[i], Kind: kinds[i], Pool: pools[i]})
 		}
-		n := rapid.IntRange(0, 7).Draw(t, label+".nrows")
+		n := genRowCount(t, 0, 7, label+".nrows")
 		rows := []any{}
 		for r := 0; r < n; r++ {
 			row := map[string]any{}
@@ -277,7 +318,7 @@ func checkC06(c *C06Case) Result {
 		}
 		want := dedupRows(all)
 		res.NonTrivial = len(want) < len(all)
-		out := c.Env.Exec(val.CopyMap(c.Doc), c.SQL)
+		out := c.exec()
 		res.Execs++
 		if !out.OK() {
 			res.Violation = fmt.Sprintf("%s\n  expected %s\n  got %s", c.SQL, val.JSON(want), out.Describe())
@@ -302,7 +343,7 @@ func checkC06(c *C06Case) Result {
 		}
 		want := dedupRows(all)
 		res.NonTrivial = len(want) < len(all)
-		out := c.Env.Exec(val.CopyMap(c.Doc), c.SQL)
+		out := c.exec()
 		res.Execs++
 		if !out.OK() {
 			res.Violation = fmt.Sprintf("%s\n  expected %s\n  got %s", c.SQL, val.JSON(want), out.Describe())
@@ -351,7 +392,7 @@ func checkC06(c *C06Case) Result {
 	}
 	res.NonTrivial = overlap
 	lastIsUnion := !c.Branches[len(c.Branches)-1].All
-	out := c.Env.Exec(val.CopyMap(c.Doc), c.SQL)
+	out := c.exec()
 	res.Execs++
 	if !out.OK() {
 		res.Violation = fmt.Sprintf("%s\n  expected %s\n  got %s", c.SQL, val.JSON(combined), out.Describe())
@@ -426,4 +467,21 @@ func (c *C06Case) refAggBranch(rows []any, where *sq.E, env *sq.Env) ([]any, err
 		out = append(out, map[string]any{c.AggKey: k, "n": refAgg("COUNT", "", m), "sv": refAgg("SUM", c.SumCol, m)})
 	}
 	return out, nil
+}
+
+// exec runs the case's statement on a typed copy of the document (every table shares the column types);
+// integers beyond 2^53 are mapped back before the result is normalised.
+func (c *C06Case) exec() Out {
+	types := map[string]map[string]string{}
+	for table := range c.Doc {
+		types[table] = c.GoTypes
+	}
+	out := c.Env.Exec(typedDoc(c.Doc, types), c.SQL)
+	for _, typ := range c.GoTypes {
+		if strings.HasPrefix(typ, "big") && out.OK() {
+			out.Rows = val.NormRows(unbig(out.Raw).([]any))
+			break
+		}
+	}
+	return out
 }
